@@ -101,7 +101,17 @@ static size_t rtCurrentDevice(void *userdata, size_t track)
 static void rtSongBegin(void *userdata)
 {
     OPNMIDIplay *context = reinterpret_cast<OPNMIDIplay *>(userdata);
-    return context->realTime_ResetState();
+    context->realTime_ResetState();
+    // A song begins with the default program and bank on every channel,
+    // also when its begin is reached again by a seek, a rewind or a loop
+    for(size_t c = 0; c < context->m_midiChannels.size(); ++c)
+    {
+        OPNMIDIplay::MIDIchannel &ch = context->m_midiChannels[c];
+        ch.patch = 0;
+        ch.bank_lsb = 0;
+        ch.bank_msb = 0;
+        ch.is_xg_percussion = false;
+    }
 }
 /* NonStandard calls End */
 
